@@ -87,6 +87,23 @@ def main():
             if not [c for c in tc if c.tag in ("failure", "error", "skipped")]:
                 passed.add(n)
         lost = sorted((stable & ran) - passed)
+        # tests using real sockets are unreliable while many processes run in parallel: re-run the lost ones alone
+        for attempt in range(2):
+            if not lost:
+                break
+            ids = []
+            for n in lost:
+                cls, tname = n.split("::")
+                parts = cls.split(".")
+                ids.append("/".join(parts[:-1]) + ".py::" + parts[-1] + "::" + tname)
+            rc, o2 = sh("cd %s && PYTHONPATH=%s /venv/bin/python -m pytest -q -p no:cacheprovider --timeout=900 --junitxml=%s %s"
+                        % (wt, wt, junit, " ".join("'%s'" % i for i in ids[:200])))
+            again = set()
+            for tc in ET.parse(junit).iter("testcase"):
+                if not [c for c in tc if c.tag in ("failure", "error", "skipped")]:
+                    again.add(tc.get("classname") + "::" + tc.get("name"))
+            res.setdefault("retried_alone", []).append({"n": len(lost), "passed": len(set(lost) & again)})
+            lost = sorted(set(lost) - again)
         res["stable_tests_run"] = len(stable & ran)
         res["stable_tests_lost"] = lost[:20]
         os.remove(junit)
